@@ -159,14 +159,28 @@ def _server_loops(ctx: Ctx, model: ExcModel) -> None:
               bad="a producer turn is reachable for an exchange stream (or vice versa): finish() would be honoured on an exchange, or a tick would be processed as input")
 
 
+def _is_input_schema(fi: FunctionInfo, e: ast.expr | None, depth: int = 0) -> bool:
+    """e denotes the stream's declared input schema: ``<x>.input_schema``, the keyword parameter of that name, or a local assigned only from those."""
+    if e is None:
+        return False
+    if isinstance(e, ast.Attribute):
+        return e.attr == "input_schema"
+    if isinstance(e, ast.Name):
+        if e.id == "input_schema" and e.id in {p.arg for p in params_of(fi)}:
+            return True
+        vals = [assign_parts(n)[1] for n in walk_scope(fi.node) if any(isinstance(t, ast.Name) and t.id == e.id for t in assign_parts(n)[0])]
+        return depth < 3 and bool(vals) and all(_is_input_schema(fi, v, depth + 1) for v in vals)
+    return False
+
+
 def _producer_test(fi: FunctionInfo, test: ast.expr, depth: int = 0) -> bool | None:
     """Polarity of `test` as 'the stream is a producer' (input schema == _EMPTY_SCHEMA): True if test==producer, False if negated."""
     if isinstance(test, ast.UnaryOp) and isinstance(test.op, ast.Not):
         v = _producer_test(fi, test.operand, depth)
         return None if v is None else not v
     if isinstance(test, ast.Compare) and len(test.ops) == 1 and isinstance(test.ops[0], (ast.Eq, ast.NotEq)):
-        sides = [txt(test.left), txt(test.comparators[0])]
-        if any(s.endswith("_EMPTY_SCHEMA") for s in sides) and any("input_schema" in s for s in sides):
+        sides = [test.left, test.comparators[0]]
+        if any(txt(x).endswith("_EMPTY_SCHEMA") for x in sides) and any(_is_input_schema(fi, x) for x in sides):
             return isinstance(test.ops[0], ast.Eq)
     if isinstance(test, ast.Name) and depth < 3:
         vals = [assign_parts(n)[1] for n in walk_scope(fi.node) if any(isinstance(t, ast.Name) and t.id == test.id for t in assign_parts(n)[0])]
@@ -336,7 +350,7 @@ def _coercion(ctx: Ctx) -> None:
         ctx.check(same and not skip and not rebinds, "RF-DOM", f"coerce-before-process:{label}", fi, c0,
                   ok="every input reaches process() as the result of _coerce_input_batch", bad="an input can reach process() without having passed _coerce_input_batch (or the coerced batch is replaced before process())")
         schema_arg = c0.value.args[1] if len(c0.value.args) > 1 else kw(c0.value, "target_schema")  # type: ignore[union-attr]
-        ctx.check(schema_arg is not None and "input_schema" in txt(schema_arg), "RF-TAINT", f"coerce-uses-declared-input-schema:{label}", fi, c0, ok="coerced against the stream's declared input schema",
+        ctx.check(_is_input_schema(fi, schema_arg), "RF-TAINT", f"coerce-uses-declared-input-schema:{label}", fi, c0, ok="coerced against the stream's declared input schema",
                   bad="the coercion target is not the stream's declared input schema")
 
 
